@@ -128,6 +128,7 @@ MANIFEST = {
 # ---------------------------------------------------------------- trigger classes (mechanisms)
 T_FP = "fixedpoint_unrepresentable"            # NaN / inf / |x*factor| >= 2^31 into FixedPointEncoding.encode
 T_PACK = "packing_value_outside_int32"         # int64/uint64/uint32 value outside int32 into IntegerPackingEncoding.encode
+T_NPORIGIN = "delta_origin_wider_numpy_scalar"   # origin given as a signed NumPy scalar wider than unsigned input data
 T_DELTA = "delta_value_outside_src_type"       # value (or value-origin in the input dtype) not representable in src_type
 T_EMPTY = "empty_array_into_runlength_delta_packing"
 T_BAF = "bytearray_float64_overflows_float32"
@@ -927,8 +928,11 @@ def case_delta(rng, ctx):
             x = x.astype(TC_OF[D])          # same values in the storage type
             D = x.dtype.name
     unrep = delta_class(x, src, origin)
+    if origin is not None and D.startswith("u") and D != "uint64" and not unrep and rng.random() < 0.3 and ctx.allowed(T_NPORIGIN):
+        origin = np.int64(origin)        # what `int64_array.min()` hands over
+        ctx.op("delta_numpy_origin")
     spec = ("Delta", {"src_type": type_param(rng, src), "origin": origin})
-    ctx.log("Delta", spec[1], arr_desc(x))
+    ctx.log("Delta", {k_: (repr(v_) if isinstance(v_, np.generic) else v_) for k_, v_ in spec[1].items()}, arr_desc(x))
     ctx.mark_nontrivial(n > 0)
     T = TC_OF[src or D]
     ctx.state(["Delta", D, T, origin is not None, unrep, min(n, 3)])
@@ -1968,6 +1972,12 @@ def _probe_delta(ctx):
         _single(ctx, ("Delta", {"src_type": src, "origin": origin}), x, False, "int")
 
 
+def _probe_delta_numpy_origin(ctx):
+    """S86: origin handed over as a signed NumPy scalar that is wider than the unsigned data (every value representable)."""
+    for dt, org in (("uint32", np.int64(7)), ("uint16", np.int64(3)), ("uint8", np.int32(1))):
+        _single(ctx, ("Delta", {"src_type": None, "origin": org}), np.array([10, 12, 200], dtype=dt), True, "int")
+
+
 def _probe_empty(ctx):
     """Empty arrays (row_count 0) into RunLength / Delta / IntegerPacking with omitted parameters."""
     for dt in ("int32", "uint8", "int64"):
@@ -2116,6 +2126,7 @@ PROBES = {
     T_FP: _probe_fixedpoint,
     T_PACK: _probe_packing,
     T_DELTA: _probe_delta,
+    T_NPORIGIN: _probe_delta_numpy_origin,
     T_EMPTY: _probe_empty,
     T_BAF: _probe_bytearray_float,
     T_IQ_NF: _probe_interval_nonfinite,
